@@ -5,20 +5,22 @@
 
      Step(k):   k = c * curl(H)^{n+1/2} (any value of the drive set)
         Phat_p = c1_p P_p + c2_p Pprev_p + c3_p E                      explicit part of the recurrence
-        E'     = ( E + ie*k + ie * sum_p (P_p - Phat_p) ) / (1 + ie * sum_p c4_p)
+        E'     = ( (1 - s) E + ie*k + ie * sum_p (P_p - Phat_p) ) / (1 + ie * sum_p c4_p + s)
+                 with the loss factor  s = c * sigma_E * eta0 * inv_eps / 2  of a conductive cell (Schneider 3.12; 0 = lossless)
         P_p'   = Phat_p + c4_p E' ;  Pprev_p' = P_p
-     and, in lock-step, the SAME cell without dispersive arrays:  Eplain' = Eplain + ie*k     (ZeroPoles product)
+     and, in lock-step, the SAME cell without dispersive arrays:  Eplain' = ((1 - s) Eplain + ie*k) / (1 + s)   (ZeroPoles product)
 
    Properties (C36, exact part):
      Recurrence   P^{n+1} = c1 P^n + c2 P^{n-1} + c3 E^n + c4 E^{n+1}                      (action property)
      History      P^n = sum_{m<n} h_{n-1-m} (c3 E^m + c4 E^{m+1}),  h_0 = 1, h_1 = c1, h_j = c1 h_{j-1} + c2 h_{j-2}
-     Ampere       eps (E^{n+1} - E^n) + sum_p (P_p^{n+1} - P_p^n) = k                       (action property)
-     ZeroPoles    all coefficients zero  =>  P = 0 and E = Eplain at every step
+     Ampere       eps (E^{n+1} - E^n) + eps s (E^{n+1} + E^n) + sum_p (P_p^{n+1} - P_p^n) = k   (action property)
+     ZeroPoles    all coefficients zero  =>  P = 0 and E = Eplain at every step, conductive cells (s # 0) included
    Variant # "ok" is a deliberately wrong update (negative instances).                                        *)
 EXTENDS DispDefs
 
 CONSTANTS Variant,     \* "ok" | "stale_E" (c3 multiplies E^{n+1}) | "no_shift" (Pprev not advanced)
-          MaxT, Drives, InvEps, CellKinds
+                       \* | "no_divisor" (the implicit loss divisor 1 + s dropped in the dispersive branch without c4)
+          MaxT, Drives, InvEps, CellKinds, Losses
 
 \* pole sets a cell can hold (sequences of declared poles; << >> = no pole in that slot set)
 LorA  == [ ptype |-> "lorentz", v |-> << << 1, 1 >>, << 0, 1 >>, << 2, 1 >> >> ]      \* c = (1, -1, 2, 0)
@@ -30,16 +32,18 @@ KindsT == { << >>, << LorA >>, << LorB >>, << DruA >>, << CcpA >>, << LorA, DruA
 DrivesQ == { << -1, 1 >>, << 0, 1 >>, << 1, 2 >> }
 DrivesT == { << -1, 1 >>, << 0, 1 >>, << 1, 2 >>, << 3, 1 >> }
 IeQ == { << 1, 1 >>, << 1, 2 >> }
+LossQ == { << 0, 1 >>, << 1, 3 >> }
+LossT == { << 0, 1 >>, << 1, 3 >>, << 2, 1 >> }
 NP == 2
 
-VARIABLES kind, ie, n, E, Eplain, P, Pprev, Ehist, last
-vars == << kind, ie, n, E, Eplain, P, Pprev, Ehist, last >>
+VARIABLES kind, ie, s, n, E, Eplain, P, Pprev, Ehist, last
+vars == << kind, ie, s, n, E, Eplain, P, Pprev, Ehist, last >>
 
 CoefOf(kd, p) == IF p <= Len(kd) THEN Coef(Unified(kd[p]), "ok") ELSE CZero
 RECURSIVE RSum(_, _)
 RSum(f, k) == IF k = 0 THEN RZ ELSE RAdd(RSum(f, k - 1), f[k])
 
-Init == /\ kind \in CellKinds /\ ie \in InvEps
+Init == /\ kind \in CellKinds /\ ie \in InvEps /\ s \in Losses
         /\ n = 0 /\ E \in { << 1, 1 >>, << -1, 2 >> } /\ Eplain = E
         /\ P = [ p \in 1..NP |-> RZ ] /\ Pprev = [ p \in 1..NP |-> RZ ]
         /\ Ehist = << E >> /\ last = << >>
@@ -49,17 +53,20 @@ Step(k) ==
     /\ LET c    == [ p \in 1..NP |-> CoefOf(kind, p) ]
            Phat == [ p \in 1..NP |-> RAdd(RAdd(RMul(c[p].c1, P[p]), RMul(c[p].c2, Pprev[p])), RMul(c[p].c3, E)) ]
            dlt  == RSum([ p \in 1..NP |-> RSub(P[p], Phat[p]) ], NP)
-           div  == RAdd(RI(1), RMul(ie, RSum([ p \in 1..NP |-> c[p].c4 ], NP)))
-           En   == RDiv(RAdd(RAdd(E, RMul(ie, k)), RMul(ie, dlt)), div)
+           sc4  == RSum([ p \in 1..NP |-> c[p].c4 ], NP)
+           \* update_E: the c4 branch folds the loss into its divisor; the branch without c4 divides by 1 + s afterwards
+           div  == IF Variant = "no_divisor" /\ \A p \in 1..NP : RIsZ(c[p].c4) THEN RI(1)
+                   ELSE RAdd(RAdd(RI(1), RMul(ie, sc4)), s)
+           En   == RDiv(RAdd(RAdd(RMul(RSub(RI(1), s), E), RMul(ie, k)), RMul(ie, dlt)), div)
            Pn   == [ p \in 1..NP |->
                        IF Variant = "stale_E" THEN RAdd(RAdd(RAdd(RMul(c[p].c1, P[p]), RMul(c[p].c2, Pprev[p])), RMul(c[p].c3, En)), RMul(c[p].c4, En))
                        ELSE RAdd(Phat[p], RMul(c[p].c4, En)) ]
        IN /\ E' = En /\ P' = Pn
           /\ Pprev' = IF Variant = "no_shift" THEN Pprev ELSE P
-          /\ Eplain' = RAdd(Eplain, RMul(ie, k))
+          /\ Eplain' = RDiv(RAdd(RMul(RSub(RI(1), s), Eplain), RMul(ie, k)), RAdd(RI(1), s))
           /\ Ehist' = Append(Ehist, En)
           /\ last' = << k, E, P, Pprev >>
-    /\ n' = n + 1 /\ UNCHANGED << kind, ie >>
+    /\ n' = n + 1 /\ UNCHANGED << kind, ie, s >>
 
 Next == \E k \in Drives : Step(k)
 Spec == Init /\ [][Next]_vars
@@ -81,6 +88,6 @@ Recurrence == n > 0 => \A p \in 1..NP :
     P[p] = RAdd(RAdd(RAdd(RMul(c.c1, last[3][p]), RMul(c.c2, last[4][p])), RMul(c.c3, last[2])), RMul(c.c4, E))
 PrevIsOld == n > 0 => Pprev = last[3]
 Ampere == n > 0 =>
-    RAdd(RDiv(RSub(E, last[2]), ie), RSum([ p \in 1..NP |-> RSub(P[p], last[3][p]) ], NP)) = last[1]
+    RAdd(RDiv(RAdd(RSub(E, last[2]), RMul(s, RAdd(E, last[2]))), ie), RSum([ p \in 1..NP |-> RSub(P[p], last[3][p]) ], NP)) = last[1]
 ZeroPoles == kind = << >> => (E = Eplain /\ \A p \in 1..NP : RIsZ(P[p]) /\ RIsZ(Pprev[p]))
 =============================================================================
